@@ -20,7 +20,7 @@ DATA = {
     "many": [["1", "a", "blue"], ["2", "b", "red"], ["3", "c", "green"], ["4", "d", "blue"]],
     "other": [["2", "x", "blue"], ["5", "y", "green"]],
     # a value outside the choices, a character outside the allowed characters, then rows using the last declared choice and the same character again
-    "bad": [["6", "a", "black"], ["7", "\xfc", "red"], ["8", "b", "blue"], ["9", "\xfc", "blue"]],
+    "bad": [["6", "a", "black"], ["7", "\xfc", "red"], ["8", "b", "blue"], ["9", "\xfc", "blue"], ["10", "", "red"], ["11", "", "green"]],  # and an empty name, twice
 }
 CIDS = {
     "delimited": [["D", "Format", "Delimited"], ["D", "Line delimiter", "LF"], ["F", "id", "", "", "", "Integer", "0...99"], ["F", "name", "", "", "1...2"], ["F", "kind", "", "", "", "Choice", "red, green, blue"],
@@ -63,10 +63,10 @@ def _events(iterable, errors):
     return out
 
 
-def op_read(cid, kind, keep, name, mode):
+def op_read(cid, kind, keep, name, mode, limit=None):
     import cutplace
 
-    return _events(cutplace.rows(cid, harness.NamedStringIO(text_of(kind, name), "data.txt"), on_error=mode), harness.modules()["errors"])
+    return _events(cutplace.rows(cid, harness.NamedStringIO(text_of(kind, name), "data.txt"), on_error=mode, validate_until=limit), harness.modules()["errors"])
 
 
 def op_abandon(cid, kind, keep, name, count, hold):
@@ -276,6 +276,8 @@ OPS = {
     "validate_dup_until1": (op_validate, ("dup", 1)),
     "validate_bad": (op_validate, ("bad",)),
     "read_bad_yield": (op_read, ("bad", "yield")),
+    "read_other_until0": (op_read, ("other", "yield", 0)),
+    "read_dup_until1": (op_read, ("dup", "continue", 1)),
     "read_bad_raise": (op_read, ("bad", "raise")),
     "open_close_reader": (op_open_close, ("other", False)),
     "open_rows_close_reader": (op_open_close, ("clean", True)),
@@ -344,6 +346,9 @@ def judge(case, part):
             part.validated += 1
             if len(history) > 1:
                 part.nontrivial += 1
+            if "FOREIGN" in repr(observed):
+                # an ending that is no cutplace error is wrong even if a fresh CID ends the same way
+                part.fail("%s|%s|run-ended-with-a-foreign-error" % (kind, last), case, "rows, rejections or a cutplace error", observed)
             part.outcome("%s:%s" % (last, "same" if observed == expected else "differs"))
             if observed != expected:
                 part.fail("%s|%s|outcome-differs-from-fresh-cid" % (kind, last), case, expected, observed)
